@@ -115,7 +115,7 @@ Proof. intros H T. rewrite (canon_header_form h H). cbn [h_type hdr_pre]. rewrit
 Corollary wf_same_scale g : wf g = true ->
   unit_scale_of (h_unit (canon_header (g_hdr g))) = unit_scale_of (h_unit (g_hdr g)).
 Proof.
-  unfold wf. intro H. apply andb_prop in H as [Hh H].
+  unfold wf_g, wf_rest. intro H. apply andb_prop in H as [Hh H].
   destruct (unit_scale_of (h_unit (g_hdr g))) as [sc|] eqn:U; [|discriminate].
   rewrite (unit_type_preserved _ _ Hh U). exact U.
 Qed.
